@@ -1,6 +1,8 @@
 """C06 Ring perception returns a minimum cycle basis that ring marks agree with."""
 import itertools
 
+from vlib.minisym import s_not
+
 PROPERTY = 'C06'
 
 META = {
@@ -12,12 +14,14 @@ META = {
     'bounds': {
         'quick': '22 ring-system skeletons (<= 9 atoms: monocycles, fused, spiro, bridged, linked rings, chains) with every '
                  'bond symbolically ordinary or coordinate (2^bonds cases per skeleton, solver-forked) and every renumbering '
-                 'of 8 skeletons with <= 6 atoms (permutation realised by the solver)',
-        'thorough': '34 skeletons (<= 10 atoms), renumbering of 14 skeletons',
+                 'of 8 skeletons with <= 6 atoms and of a 7-atom 3/4/5 tricycle (permutation realised by the solver); every '
+                 'labelled connected graph on 4 atoms and on 5 atoms with <= 9 bonds (each possible bond a solver boolean, '
+                 'degree <= 4)',
+        'thorough': '35 skeletons (<= 10 atoms), renumbering of 15 skeletons; every labelled connected graph on 6 atoms with '
+                    '<= 10 bonds (<= 5 rings) and on 7 atoms with <= 9 bonds (<= 3 rings), degree <= 4',
     },
     'outside_claim': ['the two recorded heuristic gaps (bicycles whose three bridges all have >= 3 bonds; dense cages such as 7 '
-                      'atoms / 12 bonds) - no such skeleton is used', 'graphs beyond the listed skeletons: graph shape cannot '
-                      'be a solver variable here (adjacency is stored in dictionaries)'],
+                      'atoms / 12 bonds) - no such skeleton is used', 'graphs beyond the listed skeletons and the enumerated labelled graphs (7 atoms with 4-5 rings, 8 atoms)'],
     'stubs': [],
     'assumptions': [],
 }
@@ -56,6 +60,8 @@ SK = {
     'bicyclo222': (8, [(1, 2), (2, 3), (3, 4), (4, 5), (5, 6), (6, 1), (1, 7), (7, 8), (8, 4)]),
     'ring3-ring4-spiro-tail': (7, [(1, 2), (2, 3), (1, 3), (3, 4), (4, 5), (5, 6), (6, 3), (5, 7)]),
     'three-linked': (9, [(1, 2), (2, 3), (1, 3), (3, 4), (4, 5), (5, 6), (4, 6), (6, 7), (7, 8), (8, 9), (7, 9)]),
+    # 3-, 4- and 5-membered rings sharing atoms so that ring selection reaches the condensed-ring phase
+    'tricycle345': (7, [(1, 3), (1, 4), (2, 4), (2, 6), (2, 7), (3, 4), (3, 5), (5, 6), (5, 7)]),
     'prism-less': (6, [(1, 2), (2, 3), (3, 1), (4, 5), (5, 6), (1, 4), (2, 5)]),
 }
 QUICK = ['chain4', 'ring3', 'ring4', 'ring5', 'ring6', 'ring3-tail', 'bicyclobutane', 'spiro33', 'fused34', 'fused44', 'fused55',
@@ -205,10 +211,12 @@ def h_flags(V, sk, falsify=False):
     V.observe('n', len(m.sssr))
 
 
-def h_renumber(V, sk):
+def h_renumber(V, sk, first=None):
     n, edges = SK[sk]
     p = [V.int(f'p{i}', 0, n - 1) for i in range(n)]
     V.distinct(*p)
+    if first is not None:
+        V.assume(p[0] == first)
     pc = [int(x) for x in p]
     numbers = {i + 1: 10 + 3 * pc[i] for i in range(n)}
     m = build(sk, [False] * len(edges), numbers)
@@ -220,7 +228,37 @@ def h_renumber(V, sk):
     V.observe('sizes', sorted(len(r) for r in m.sssr))
 
 
-HARNESSES = {'flags': h_flags, 'renumber': h_renumber}
+def h_graphs(V, n, max_edges, fixed=()):
+    """every labelled graph on n atoms: each of the n(n-1)/2 possible bonds is a solver boolean"""
+    from vlib.oracles import count_true
+    pairs = list(itertools.combinations(range(1, n + 1), 2))
+    e = [V.bool(f'e{i}_{j}') for i, j in pairs]
+    # shards fix the bonds along the path 1-2, 3-4, 5-6, 2-3, 4-5, 6-7 (no atom is cut off by them)
+    spine = [(1, 2), (3, 4), (5, 6), (2, 3), (4, 5), (6, 7)]
+    for pq, val in zip(spine, fixed):
+        k = pairs.index(pq)
+        V.assume(e[k] if val else s_not(e[k]))
+    cnt = count_true(*e)
+    V.assume(cnt <= max_edges)
+    V.assume(cnt >= n - 1)
+    for a in range(1, n + 1):
+        V.assume(count_true(*[x for x, (i, j) in zip(e, pairs) if a in (i, j)]) <= 4)
+        V.assume(count_true(*[x for x, (i, j) in zip(e, pairs) if a in (i, j)]) >= 1)
+    edges = [pq for pq, x in zip(pairs, e) if bool(x)]
+    nodes = list(range(1, n + 1))
+    if len(components(nodes, edges)) != 1:
+        V.note('disconnected')
+        return
+    SK['_graph'] = (n, edges)
+    try:
+        m = build('_graph', [False] * len(edges))
+    finally:
+        del SK['_graph']
+    check_rings(V, m, edges, {'atoms': n, 'edges': edges})
+    V.observe('sizes', sorted(len(r) for r in m.sssr))
+
+
+HARNESSES = {'flags': h_flags, 'renumber': h_renumber, 'graphs': h_graphs}
 
 
 def jobs(tier):
@@ -234,4 +272,15 @@ def jobs(tier):
     for sk in (ren if T else ren[:10]):
         J.append({'harness': 'renumber', 'params': {'sk': sk}, 'budget_s': 1800, 'validate_every': 100, 'max_failures': 10,
                   'weight': 500})
+    # renumbering of the 7-atom tricycle, split over the first label
+    for first in range(7):
+        J.append({'harness': 'renumber', 'params': {'sk': 'tricycle345', 'first': first}, 'budget_s': 1800,
+                  'validate_every': 200, 'max_failures': 10, 'weight': 700, 'name': f'renumber[tricycle345:{first}]'})
+    # every labelled connected graph (degree <= 4)
+    for n, me in ((4, 6), (5, 9)) + (((6, 10), (7, 9)) if T else ()):
+        nfix = {4: 0, 5: 2, 6: 4, 7: 6}[n]
+        for fixed in itertools.product((False, True), repeat=nfix):
+            J.append({'harness': 'graphs', 'params': {'n': n, 'max_edges': me, 'fixed': list(fixed)}, 'budget_s': 3000,
+                      'validate_every': 500, 'max_failures': 10, 'weight': 2 ** (n * (n - 1) // 2 - nfix) // 50,
+                      'name': f'graphs[{n}:{"".join("01"[x] for x in fixed)}]'})
     return J
